@@ -241,9 +241,10 @@ def campaign_cast(ck: Check) -> None:
     camp = ck.campaign("con.cast (int()/float() casts of bounds) vs get_data_type kwargs and _get_strict_field_constraint_value")
     t0 = time.time()
     mod = _mods()["v2"]
-    decs = [(15, 1), (7, 0), (-25, 1), (-3, 0), (20, 1), (5, 1), (-5, 1), (125, 2), (0, 0)]
+    decs = [(15, 1), (7, 0), (-25, 1), (-3, 0), (20, 1), (5, 1), (-5, 1), (125, 2), (0, 0), (2**53 + 1, 0), (2**63 - 1, 0), (-(2**53) - 1, 0)]
     kwmap = {"minimum": "ge", "maximum": "le", "exclusiveMinimum": "gt", "exclusiveMaximum": "lt", "multipleOf": "multiple_of"}
-    cases = [(r, f, kw, m, e) for r in ("contype", "field") for f in ("int", "num") for kw in kwmap for (m, e) in decs]
+    # beyond 2**53 only integer-typed schemas and the bounds proper (a `number` is a double anyway; multipleOf is typed float)
+    cases = [(r, f, kw, m, e) for r in ("contype", "field") for f in ("int", "num") for kw in kwmap for (m, e) in decs if abs(m) <= 2**53 or (f == "int" and kw != "multipleOf")]
     replies = ck.driver.run([f"con.cast {r} {f} {hx(kwmap[kw])} {m} {e}" for r, f, kw, m, e in cases])
     for (r, f, kw, m, e), rep in zip(cases, replies):
         camp.evaluations += 1
@@ -266,9 +267,17 @@ def campaign_cast(ck: Check) -> None:
         if got is None and r == "contype" and v == 0:
             camp.unmodelled += 1  # {"gt": 0} / {"lt": 0} alone are written as PositiveInt / NegativeFloat …: no keyword at all
             continue
+        if e == 0 and abs(m) > 2**53 and kw in ("exclusiveMinimum", "exclusiveMaximum"):
+            camp.hit("known:big_exclusive_bound_through_float")  # D42: JsonSchemaObject types exclusive bounds as float
+            continue
         camp.hit("truncated" if got != v else "exact")
         camp.distinct.add((r, f, kw, m, e))
-        if got is None or isinstance(got, str) or float(got) != float(model_v):
+        from fractions import Fraction
+
+        def exact(x):  # integers are compared as integers (a double cannot tell 2**53 from 2**53 + 1)
+            return Fraction(x) if isinstance(x, int) else Fraction(repr(float(x)))
+
+        if got is None or isinstance(got, str) or exact(got) != exact(model_v):
             ck.disagree(camp, {"routing": r, "fam": f, "keyword": kw, "value": v}, model_v, got)
         elif len(camp.samples) < 2 and got != v:
             camp.samples.append({"routing": r, "fam": f, "keyword": kw, "value": v, "written": got})
@@ -355,6 +364,12 @@ def _body(doc: dict) -> dict:
 
 def diff_cause(d: semrun.Diff) -> str:
     leaf = d.leaf or {}
+    if d.keyword in ("exclusiveMinimum", "exclusiveMaximum"):
+        v = leaf.get(d.keyword)
+        if isinstance(v, int) and not isinstance(v, bool) and abs(v) > 2**53:
+            return "big_exclusive_bound_through_float"
+    if d.keyword == "pattern" and "|" in d.path and "," in str(leaf.get("pattern", "")):
+        return "comma_in_pattern_in_union"
     if d.keyword in semgen.BOUND_KEYS and leaf.get("type") == "integer":
         v = leaf.get(d.keyword)
         if isinstance(v, float) and v != int(v):
@@ -532,6 +547,10 @@ def focused_docs() -> list[tuple[str, dict]]:
         )
     )
     docs += allof_required_docs()
+    # integer bounds that are exact as integers and not as doubles, and the edges of int64
+    big = {"lo53": {"type": "integer", "minimum": 2**53 + 1}, "hi63": {"type": "integer", "maximum": 2**63 - 1}, "hi53": {"type": "integer", "maximum": 2**53 + 3}, "neg": {"type": "integer", "minimum": -(2**53) - 1}, "both": {"type": "integer", "minimum": 2**53 + 1, "maximum": 2**53 + 5}}
+    docs.append(("big_integer_bounds", {"title": "Model", "type": "object", "properties": big, "required": list(big)}))
+    docs.append(("big_integer_bounds_items", {"title": "Model", "type": "object", "properties": {k: {"type": "array", "items": v} for k, v in big.items()}}))
     for k in ("minimum", "maxLength", "minItems"):
         docs.append((f"root_{k}", {"title": "Model", **L[k]}))
     mapping = {"cat": "#/definitions/Cat", "dog": "#/definitions/Dog"}
